@@ -116,7 +116,7 @@ theorem writer_loop_tie (ks : List Thread) (u : Updater) (k F : Nat) (ws : Nat â
       simp [rs_eval, rs_code, abstracted, hii]
       simp [weventsBefore, winputsBefore, hs, WStep.events, WStep.inputs, WStep.recv, chanValue, Nat.add_assoc]
   case a => omega
-  rw [evalWhile_step (n := F + 95)]
+  rw [evalWhile_step]
   case hc => simp [rs_eval]
   cases e with
   | abort =>
